@@ -376,6 +376,44 @@ pub fn run(seed: u64, n_trees: u64, n_rust: u64, corruptions_per_doc: usize) -> 
             }
         }
     }
+    // integers that no Koto number can hold exactly must be rejected, never clamped: every integer literal in
+    // i64::MAX + 1 ..= u64::MAX, at the top level and nested, with seeded neighbours of the two limits
+    let mut out_of_range = 0u64;
+    let mut big: Vec<u128> = vec![9223372036854775808, 9223372036854775809, 12345678901234567890, 18446744073709551614, 18446744073709551615];
+    for _ in 0..20 {
+        big.push(9223372036854775808u128 + (rng.next() as u128 % 9223372036854775807));
+    }
+    for n in &big {
+        for (name, module) in &modules {
+            let docs: Vec<String> = match *name {
+                "json" => vec![format!("{n}"), format!("[1, {n}]"), format!("{{\"a\": {{\"b\": [{n}]}}}}")],
+                "yaml" => vec![format!("{n}"), format!("- 1\n- {n}\n"), format!("a:\n  b: {n}\n"), format!("0x{n:X}")],
+                _ => vec![format!("a = {n}\n"), format!("a = [1, {n}]\n")],
+            };
+            for doc in docs {
+                out_of_range += 1;
+                evaluations += 1;
+                match call(&mut koto, module, "from_string", KValue::Str(doc.as_str().into())) {
+                    Err(p) => {
+                        if !panics::is_excluded(&p) {
+                            fault_count += 1;
+                            add(&mut faults, json!({"rule": "panic", "format": name, "detail": p.signature, "text": doc}));
+                        }
+                    }
+                    Ok(Err(_)) => {}
+                    Ok(Ok(v)) => {
+                        // accepted: only fine when the value that came back is that very number (a float that is exact)
+                        let shown = display(&mut koto, &v);
+                        if !shown.contains(&n.to_string()) {
+                            fault_count += 1;
+                            add(&mut faults, json!({"rule": "out-of-range-accepted", "format": name, "text": doc, "value": shown.chars().take(200).collect::<String>()}));
+                        }
+                    }
+                }
+            }
+        }
+    }
+    stats.insert("out_of_range_documents".into(), json!(out_of_range));
     // Rust data -> Koto value -> Rust data
     let mut rust_values = 0u64;
     for _ in 0..n_rust {
